@@ -176,7 +176,16 @@ def gen(
             "rt",
         ) as f:
             imports: str = "".join(
-                map(to_code, get_at_root(ast.parse(f.read()), (Import, ImportFrom)))
+                map(
+                    "{}\n".format,
+                    map(
+                        str.rstrip,
+                        map(
+                            to_code,
+                            get_at_root(ast.parse(f.read()), (Import, ImportFrom)),
+                        ),
+                    ),
+                )
             )
 
     module_path, _, symbol_name = input_mapping.rpartition(".")
